@@ -48,7 +48,10 @@ def check_case(inp, limit=64, stats=None):
             raise Violation('refactor', 'kind', inp, f'refactor_reference({text!r}) returned a {type(f).__name__} for a {"predicate" if is_pred else "expression"}')
     if not mentions:
         # "f itself (unchanged)": the same object, or (predicates are re-wrapped) an equal tree with the same stored types
-        if f1 is not a and (f1 != a or astx.snapshot(f1) != astx.snapshot(a)):
+        # a predicate whose condition is a boolean literal (only other API functions build such objects) may come back as
+        # the canonical vacuous truth / contradiction: the same predicate, normalised
+        degenerate = model in (('lit', 'bool', True), ('lit', 'bool', False)) and astx.to_model(f1) == model
+        if f1 is not a and not degenerate and (f1 != a or astx.snapshot(f1) != astx.snapshot(a)):
             raise Violation('refactor', 'identity', inp, f'{text!r} does not mention @{alias}, but the first result is not the unchanged input: {f1}')
         if not _is_true(f2):
             raise Violation('refactor', 'identity', inp, f'{text!r} does not mention @{alias}, but the second result is {f2}, not True')
